@@ -21,6 +21,14 @@ class BoomTask(Exception):
     pass
 
 
+class BoomSourceRuntime(RuntimeError):
+    """A source failure of a class the runtime itself uses (NotImplementedError, RecursionError are RuntimeErrors)."""
+
+
+class BoomSourceLookup(KeyError):
+    pass
+
+
 class BoomSource(Exception):
     pass
 
@@ -103,7 +111,8 @@ class Run(object):
                 if run.arm_sraise:
                     run.arm_sraise = False
                     run.log(e='src', v=-1)
-                    raise BoomSource()
+                    # the class of the failure varies with the schedule (deterministically): whatever it is, it surfaces
+                    raise (BoomSource, BoomSourceRuntime, BoomSourceLookup)[len(run.fired) % 3]()
                 if self.n < run.K:
                     self.n += 1
                     run.log(e='src', v=self.n)
@@ -306,7 +315,7 @@ class Run(object):
             self.log(e='ret', v='ok')
             self.outcome = 'ok'
         elif kind == 'exc':
-            if isinstance(val, (BoomTask, BoomSource)):
+            if isinstance(val, (BoomTask, BoomSource, BoomSourceRuntime, BoomSourceLookup)):
                 self.log(e='ret', v='error')
                 self.outcome = 'error'
             else:
